@@ -594,3 +594,78 @@ Proof.
   - apply (SP.hess_symm_sym RK RKr injR injR_qhom alpha beta _ (Gs x y z)).
 Qed.
 End C15Real.
+
+(* the stress tensor in terms of the real density: sigma_ij(r) = -alpha G(e_i,e_j)(r) + (1-alpha) G(e_i+e_j,0)(r)
+   - delta_ij beta/2 Laplacian(rho)(r), the Laplacian being that of the real function rho *)
+Arguments injR : simpl never.
+Section C15Density.
+Variable n : nat.
+Variable P : nat -> nat -> R.
+Variable f : nat -> R -> R -> R -> R.
+Hypothesis Hf : forall a, (a < n)%nat -> smooth3 (f a).
+Hypothesis Psym : forall a b, P a b = P b a.
+Variables alpha beta : R.
+Notation G := (GR n P f).
+Notation rho := (rhoR n P f).
+
+Lemma evq_lap_rho x y z : evqR G ST.lap_rho x y z = lap3 rho x y z.
+Proof.
+  unfold lap3. rewrite !(pd3_rho_is_drho n P f Hf).
+  unfold evqR, ST.lap_rho, SJ.lsum, SJ.axes, ST.rho, ST.sym.
+  cbn [flat_map SJ.dkq SJ.dkey map app SJ.evalq fst snd SJ.osucc SJ.o0]. unfold SJ.kev. cbn [fst snd].
+  rewrite (SJ.inj_1 RK injR injR_qhom).
+  unfold DJ.drho, DJ.Dord, DJ.G00. cbn [DJ.Dn DJ.D flat_map app DJ.eval fst snd DJ.bump DJ.ord0].
+  change (fmul RK) with Rmult. change (fadd RK) with Rplus. change (f1 RK) with 1. change (f0 RK) with 0. unfold SJ.o0, DJ.ord0. ring.
+Qed.
+
+Theorem stress_formula_real i j x y z :
+  sigmaR G alpha beta i j x y z
+  = - alpha * G (SJ.e_ i) (SJ.e_ j) x y z + (1 - alpha) * G (SJ.oadd (SJ.e_ i) (SJ.e_ j)) SJ.o0 x y z
+    - (if ST.aeqb i j then / 2 * beta * lap3 rho x y z else 0).
+Proof.
+  unfold sigmaR, evR.
+  rewrite (SP.stress_formula RK RKr injR injR_qhom alpha beta (at_pt G x y z)).
+  fold (evqR G ST.lap_rho x y z). rewrite evq_lap_rho, injR_half. reflexivity.
+Qed.
+End C15Density.
+
+(* ------------------------------------------------------------------ *)
+(* 5. positivity over R for P = C C^T                                   *)
+(* ------------------------------------------------------------------ *)
+Lemma rsum_scal_l m c (h : nat -> R) : rsum m (fun i => c * h i) = c * rsum m h.
+Proof. induction m as [|m IH]; cbn [DP.rsum]; [ring|]. rewrite IH. ring. Qed.
+Lemma rsum_scal_r m c (h : nat -> R) : rsum m (fun i => h i * c) = rsum m h * c.
+Proof. induction m as [|m IH]; cbn [DP.rsum]; [ring|]. rewrite IH. ring. Qed.
+
+(* P = C C^T with r columns *)
+Definition gram (r : nat) (C : nat -> nat -> R) : nat -> nat -> R :=
+  fun a b => rsum r (fun m => C a m * C b m).
+
+Lemma gram_sym r C a b : gram r C a b = gram r C b a.
+Proof. unfold gram. apply DP.rsum_ext. intros m _. ring. Qed.
+
+Lemma gram_psd n r C v : 0 <= DP.quad n (gram r C) v.
+Proof.
+  induction r as [|r IH].
+  - unfold DP.quad, gram. cbn [DP.rsum].
+    rewrite (DP.rsum_ext n _ (fun _ => 0)); [rewrite DP.rsum_0; lra|].
+    intros a _. rewrite (DP.rsum_ext n _ (fun _ => 0)); [apply DP.rsum_0|]. intros b _. ring.
+  - set (S := rsum n (fun a => C a r * v a)).
+    assert (E : DP.quad n (gram (Datatypes.S r) C) v = DP.quad n (gram r C) v + S * S).
+    { unfold DP.quad, gram. cbn [DP.rsum].
+      unfold S at 1. rewrite <- rsum_scal_r, <- DP.rsum_add. apply DP.rsum_ext. intros a _.
+      unfold S. rewrite <- rsum_scal_l, <- DP.rsum_add. apply DP.rsum_ext. intros b _. ring. }
+    rewrite E. pose proof (Rle_0_sqr S) as H2. unfold Rsqr in H2. lra.
+Qed.
+
+Section Positivity.
+Variable n r : nat.
+Variable C : nat -> nat -> R.
+Variable f : nat -> R -> R -> R -> R.
+
+(* rho(r) >= 0 and t_+(r) >= 0 for a density matrix of the form C C^T *)
+Theorem rho_nonneg_real x y z : 0 <= rhoR n (gram r C) f x y z.
+Proof. exact (DP.density_nonneg n (gram r C) (phiR f x y z) (gram_psd n r C)). Qed.
+Theorem ked_nonneg_real x y z : 0 <= tplusR n (gram r C) f x y z.
+Proof. exact (DP.ked_nonneg n (gram r C) (phiR f x y z) (gram_psd n r C)). Qed.
+End Positivity.
